@@ -178,6 +178,25 @@ def rule_kept_in_place(check):
             if calls_ & hoisters:
                 # the arm may hoist; helpers it goes through decide (checked by EFFECT / IDENT-MODE)
                 inner_h = [prog.resolve_local(x) for x in hir.walk(a_["body"]) if hir.is_call(x)]
+                if "Bin" in vs_ and check.prop == "C01":
+                    # a binary operand may only stay behind if it is known to be free of effects. "It is a
+                    # `+`" is not that: a sum is a hook call (not a Bin any more) or a sum of literals only
+                    # while the plus operator is enabled; with the operator disabled `f() + g()` arrives here
+                    # as written. Whatever is not hoisted must be tested to be a sum of literals.
+                    stay_sites = []
+                    for h_ in inner_h:
+                        if h_ is None or h_.body is None or h_ is fo:
+                            continue
+                        for y in [y for y in hir.walk(h_.body) if hir.is_call(y) and (hir.callee_name(y) or y.get("method")) in hoisters]:
+                            conds_ = [c_ for c_ in h_.conds_at(y) if c_["t"] == "bool"]
+                            if not conds_:
+                                continue  # hoisted on every path through here
+                            txt = " && ".join(hir.cond_str(c_) for c_ in conds_)
+                            lit_test = any(hir.is_call(z) and "lit" in ((hir.callee_name(z) or z.get("method") or "").lower()) for c_ in conds_ for z in hir.walk(c_["e"]))
+                            stay_sites.append((y, txt, lit_test))
+                    if stay_sites:
+                        okb = all(lt for _, _, lt in stay_sites)
+                        check.expect(okb, R, R + "/stays/Bin/only-literal-sums", hir.loc(stay_sites[0][0]), "a binary operand stays in place only when it is tested to be a sum of literals", "a binary operand is hoisted only if [%s] and otherwise left in place whatever its operands are: with the plus operator disabled `m(f() + g(), h())` evaluates h() - hoisted into a temporary - before f() + g(), and the hook is not told about that argument" % "; ".join(t for _, t, _ in stay_sites))
                 continue
             pushes_ = [x for x in hir.walk(a_["body"]) if hir.is_call(x) and (hir.callee_name(x) or x.get("method")) == "push"]
             via_helper = [prog.resolve_local(x) for x in hir.walk(a_["body"]) if hir.is_call(x) and prog.resolve_local(x) is not None]
@@ -1412,3 +1431,56 @@ def rule_method_name_kept(check):
                 made_up = [o for o in os_ if (o[0][0] in ("ctor", "lit") and not o[1]) or (o[0][0] == "call" and not (o[0][1].split("::")[-1] in ("new", "with_capacity", "default") and ("<T>" in o[0][1] or "Vec" in o[0][1])))]
                 check.expect(not made_up, R, "%s/%s" % (R, f.name), hir.loc(s), "the emitted property is the identifier of the input's member expression", "the property of the emitted member access can be %s instead of the name written in the input" % sorted({origin_str(o)[:60] for o in made_up}))
     check.floor(R, "emitted member accesses named after the input", n, 1)
+
+
+def rule_optchain_spine(check):
+    """OPTCHAIN-SPINE (C01, C02, C04): one run of the lowering visitor lowers one chain"""
+    R = "OPTCHAIN-SPINE"
+    check.rule(R, "the visitor that lowers an optional chain shares one list of hoisted assignments and one guard variable for the whole run, so it must stay on the chain: it does not enter call arguments or computed keys (an optional chain there has a null check of its own: merged into the outer one it guards the wrong value or suppresses a call that the input makes). Those operands are visited afterwards: the OptChain arm of the operation visitor visits the children of the (lowered) expression on every path")
+    prog = check.prog
+    ovs = {f.name: f for f in overrides_of(prog, "OptChainVisitor")}
+    for slot, names in (("call arguments", ("visit_mut_expr_or_spreads", "visit_mut_expr_or_spread")), ("computed keys", ("visit_mut_computed_prop_name",))):
+        cut = [ovs[n] for n in names if n in ovs]
+        ok = bool(cut) and all(not any(x.get("k") == "MethodCall" and x["method"].startswith("visit_") for x in f.nodes()) for f in cut)
+        where = hir.loc(cut[0].rec) if cut else (hir.loc(ovs["visit_mut_expr"].rec) if "visit_mut_expr" in ovs else "-")
+        check.expect(ok, R, "%s/%s" % (R, slot.replace(" ", "-")), where, "the lowering visitor does not enter %s" % slot, "the lowering visitor enters the %s of the chain: an optional chain nested there is lowered in the same run and shares the outer chain's guard (`a?.concat(c?.d.trim())` is guarded on `c`, `a?.b(c?.d.trim())` drops the call of b when c is null)" % slot)
+    # the operands are visited by the operation visitor afterwards
+    from .statusrules import opv_visit_mut_expr
+
+    f = opv_visit_mut_expr(prog)
+    low = [n for g in prog.flat(f, 1) for n in hir.calls_in(g.body, name="to_dd_cond_expr") if g is f or (g.rec.get("self_ty") or "") == (f.rec.get("self_ty") or "")]
+    check.floor(R, "lowering calls in the operation visitor", len(low), 1)
+    for n in low:
+        g = [g for g in prog.flat(f, 1) if any(x is n for x in g.nodes())][0]
+        later = [x for x in g.nodes() if x.get("k") == "MethodCall" and x["method"] == "visit_mut_children_with" and x["id"] > n["id"] and "OperationTransformVisitor" in (hir.peel(x["args"][0]).get("ty") or "") if x["args"]]
+        same = [x for x in later if [c for c in g.conds_at(x) if c["t"] not in ("closure",)] == [c for c in g.conds_at(n) if c["t"] not in ("closure",)]]
+        check.expect(bool(same), R, R + "/operands-visited-afterwards", hir.loc(n), "after the lowering the children of the expression are visited by the operation visitor on every path", "after to_dd_cond_expr the operation visitor does not visit the children of the expression on every path: optional chains in arguments / computed keys are never lowered")
+
+
+REMOVERS = {"split_off", "remove", "clear", "drain", "truncate", "pop", "swap_remove", "retain", "take", "dedup", "dedup_by", "dedup_by_key"}
+
+
+def rule_input_untouched(check):
+    """INPUT-UNTOUCHED (C01, C02): a transform builds its result next to the input; it never takes parts
+    out of the node it was handed, because every transform can still decide not to instrument"""
+    R = "INPUT-UNTOUCHED"
+    check.rule(R, "no transform removes or moves parts out of an AST node it received through a parameter (split_off / remove / drain / truncate / take / clear / retain ... on a place rooted in a parameter): the caller keeps that node whenever the transform answers `not modified`, so whatever was taken out is missing from code that is printed as if untouched. Results are built from clones (or the node is replaced as a whole by the caller)")
+    prog = check.prog
+    n_fn = 0
+    for f in xform_fns(prog):
+        n_fn += 1
+        for n in f.nodes():
+            if n.get("k") != "MethodCall" or n["method"] not in REMOVERS:
+                continue
+            pl = hir.place(n["recv"]) or ""
+            root = pl.split(".")[0]
+            lid = int(root.split("#")[1]) if "#" in root and root.split("#")[1].isdigit() else None
+            b = f.bindings().get(lid) if lid is not None else None
+            if b is None or b["origin"][0] != "param":
+                continue
+            ty = hir.peel(n["recv"]).get("ty") or ""
+            if "swc_ecma_ast" not in ty and "swc_ecma_ast" not in (b.get("ty") or ""):
+                continue
+            check.bad(R, "%s/%s/%s" % (R, f.name, n["method"]), hir.loc(n), "%s() takes parts out of `%s`, a node handed in by the caller: on every path where %s then answers `not modified` the caller keeps - and prints - the node without them" % (n["method"], re.sub(r"#\d+", "", pl), f.name))
+    check.floor(R, "transform functions inspected", n_fn, 20)
+    check.ok(R, R + "/inventory", "-", "no removing / moving call on a parameter-rooted AST place in %d transform functions" % n_fn)
